@@ -4,6 +4,9 @@
 package gen
 
 import (
+	"encoding/hex"
+	"encoding/json"
+
 	"github.com/libsv/go-bt/v2"
 	"github.com/libsv/go-bt/v2/bscript"
 
@@ -72,6 +75,9 @@ type In struct {
 	PrevSats      uint64  `json:"prev_sats"`
 	PrevScript    mon.Hex `json:"prev_script"`
 	PrevScriptNil bool    `json:"prev_script_nil,omitempty"`
+	// ViaJSON: the input is produced by bt.Input's own JSON decoder (so an
+	// absent txid is the empty, non-nil slice that decoder leaves behind).
+	ViaJSON bool `json:"via_json,omitempty"`
 }
 
 type Out struct {
@@ -101,7 +107,17 @@ func (s *Shape) Build() *bt.Tx {
 		id := make([]byte, len(in.TxID))
 		copy(id, in.TxID)
 		_ = bi.PreviousTxIDAdd(id)
-		if !in.UnlockNil {
+		if in.ViaJSON {
+			js, _ := json.Marshal(map[string]any{"txid": hex.EncodeToString(in.TxID), "vout": in.Vout, "sequence": in.Seq, "unlockingScript": hex.EncodeToString(in.Unlock)})
+			bi = &bt.Input{}
+			if err := json.Unmarshal(js, bi); err != nil {
+				panic("gen: bt.Input JSON decode of " + string(js) + ": " + err.Error())
+			}
+			bi.PreviousTxSatoshis = in.PrevSats
+			if in.UnlockNil {
+				bi.UnlockingScript = nil
+			}
+		} else if !in.UnlockNil {
 			bi.UnlockingScript = bscript.NewFromBytes(append([]byte{}, in.Unlock...))
 		}
 		if !in.PrevScriptNil {
